@@ -109,6 +109,7 @@ TRANSLATED = {
  'C02': ('the node-creation loop of AttackGraph._generate_graph with add_node and the lookups (attackgraph.py)', 'py2lean.py', 'Py/Gen', 'PropsGen/C02.lean'),
  'C03': ('LanguageGraph._get_attacks_for_asset_type and _get_variable_for_asset_type_by_name (languagegraph.py), with the specification objects as references into stores so that aliasing and purity are theorems about the translated code', 'py2lean_lang.py', 'Py/GenLang', 'PropsGen/C03.lean'),
  'C04': ('all 33 methods of malVisitor (mal_visitor.py), run on parse trees of a hand-written tree builder whose trees are compared with ANTLR\'s on every run (ties proved for expressions, TTC, clauses, associations, visitMal; step / asset / category level executed against the real compiler only)', 'py2lean_visitor.py', 'Py/GenVisitor', 'PropsGen/C04.lean'),
+ 'C16': ('create_attack_graph (wrappers.py) and Model.load_from_file as the composition of the generated functions of the other domains, with the evaluator environment instantiated from the translated model and language-graph heaps (evalEnvOf_eq)', 'py2lean_wrapper.py', 'Py/GenWrapper', 'PropsGen/C16.lean'),
  'C17': ('malVisitor.visitMal (include handling) and the hand-written glue compileGen over the tree builder', 'py2lean_visitor.py', 'Py/GenVisitor', 'PropsGen/C17.lean'),
  'C05': ('the mutators and lookups of Model and AttackerAttachment (model.py: add_asset, remove_asset, remove_asset_from_association, _validate_association, add_association, remove_association, add/remove_attacker, entry points, get_*, association_exists_between_assets, get_associated_assets_by_field_name)', 'py2lean_model.py', 'Py/GenModel', 'PropsGen/C05.lean'),
  'C06': ('LanguageClassesFactory._generate_assets, _generate_associations (with its three closures), _create_classes up to the JSON schema, get_association_by_signature (classes_factory.py; python_jsonschema_objects stays the modelled boundary)', 'py2lean_classes.py', 'Py/GenClasses', 'PropsGen/C06.lean'),
